@@ -579,6 +579,51 @@ def special_cases(pp):
         yield (("argform", form), "add_subdomains: every grid of the iterable argument is present afterwards",
                f"{form} argument", {"special": "argform", "form": form}, ok, detail)
     # rejected operations must leave the container unchanged
+    # the same grid twice in one call: either rejected, or stored once with exactly one boundary grid
+    g2 = pp.CartGrid(np.array([2, 2]))
+    g2.compute_geometry()
+    m = pp.MixedDimensionalGrid()
+    try:
+        m.add_subdomains([g2, g2])
+        ok, detail = len(m.subdomains()) == 1 and len(m.boundaries()) == 1, f"{len(m.subdomains())} subdomains, {len(m.boundaries())} boundary grids"
+    except ValueError:
+        ok, detail = len(m._subdomain_data) == 0 and len(m._boundary_grid_data) == 0, "rejected"
+    yield (("twice", "add"), "add_subdomains: every positive-dimensional subdomain has exactly one boundary grid", "the same grid twice in one call",
+           {"special": "twice"}, ok, detail)
+    # an interface between a subdomain and itself (co-dimension 0, as in the library's own tests), then removal of that subdomain
+    for others in ("with a lower-dimensional subdomain left", "last subdomain"):
+        g2 = pp.CartGrid(np.array([2, 2]))
+        g2.compute_geometry()
+        g1 = pp.CartGrid(np.array([2]))
+        g1.compute_geometry()
+        m = pp.MixedDimensionalGrid()
+        m.add_subdomains([g2, g1] if others.startswith("with") else [g2])
+        side = pp.CartGrid(np.array([2, 2]))
+        side.compute_geometry()
+        mg = pp.MortarGrid(2, {MS.LEFT_SIDE: side}, primary_secondary=sps.identity(4, format="csc"), codim=0)
+        m.add_interface(mg, (g2, g2), None)
+        try:
+            m.remove_subdomain(g2)
+            ok = len(m._interface_data) == 0 and len(m._interface_to_subdomains) == 0 and g2 not in m._subdomain_data and len(m._boundary_grid_data) == len(m._subdomain_to_boundary_grid)
+            detail = f"{len(m._interface_data)} interfaces stored, {len(m._subdomain_data)} subdomains"
+        except Exception as e:  # noqa: BLE001
+            ok, detail = False, f"{type(e).__name__}: {e}"
+        yield (("selfintf", others), "remove_subdomain: removes exactly sd, its interfaces, its boundary grid", f"subdomain with a same-dimension self-interface, {others}",
+               {"special": "selfintf", "others": others}, ok, detail)
+    # a subdomain mapped to itself is not a replacement
+    g2 = pp.CartGrid(np.array([2, 1]))
+    g2.compute_geometry()
+    g1 = pp.CartGrid(np.array([2]))
+    g1.compute_geometry()
+    m = pp.MixedDimensionalGrid()
+    m.add_subdomains([g2, g1])
+    before = view(m)
+    try:
+        m.replace_subdomains_and_interfaces({g1: g1})
+        ok, detail = view(m) == before, f"subdomains before {len(before[0])} after {len(m.subdomains())}"
+    except Exception as e:  # noqa: BLE001
+        ok, detail = False, f"{type(e).__name__}: {e}"
+    yield (("selfmap", "replace"), "replace_subdomains_and_interfaces: exact replacement, nothing else changes", "subdomain mapped to itself", {"special": "selfmap"}, ok, detail)
     for case in ("duplicate subdomain", "list containing a present subdomain", "duplicate interface", "co-dimension 3 pair", "pair of length 3"):
         g3 = pp.CartGrid(np.array([1, 1, 1]))
         g3.compute_geometry()
